@@ -4,6 +4,8 @@
 # usage: tools/with_patch_wt.sh <patch.diff> <command...>
 set -u
 PATCH=$(realpath "$1"); shift
+# one user at a time: concurrent callers would swap patches under each other
+exec 9>/tmp/wt_m.lock; flock 9
 WT=/tmp/wt_m
 if [ ! -d $WT ]; then git -C /repo worktree add -q --detach $WT HEAD || exit 2; fi
 cd $WT || exit 2
